@@ -184,38 +184,76 @@ UALPHA = ["a", "b", "A", "B", "z", "Z", "\u00e9", "\u00c9", "e\u0301", "\u00e0",
           "-", "\u4e2d", "\u03b1", "\u0431", "\U0001d49c", "ae", "\u00e6", "o", "\u00f6", "\u00d8", "_", ".", "~"]
 
 
+LANGS = ["-", "en", "sv", "de", "da", "en-US"]
+UALPHA2 = ["a", "A", "b", "B", "o", "O", "\u00f6", "\u00d6", "z", "Z", "\u00e4", "y", "\u00fc", "v", "w", "e", "\u00e9"]
+
+
 def gen_ucase(r, maxn=12):
-    """second stream: arbitrary Unicode text keys; the collation is whatever the library's ICU functor answers"""
-    case = gen_case(r, maxn=maxn)
+    """second stream: arbitrary Unicode text keys; every xsl:sort has its OWN lang / case-order; the oracle is a fresh
+    ICU collator per key (harness `coll`)"""
+    case = gen_case(r, maxn=maxn, maxkeys=r.weighted([(1, 3), (2, 4), (3, 2), (4, 1)]))
     for k in case["keys"]:
         if k.get("odd", "").startswith("bad-"):
             k["odd"] = ""
-    npool = r.range(2, 7)
+    style = r.weighted([("mixed", 4), ("casey", 5)])
     pool = [""]
-    while len(pool) < npool:
-        w = "".join(r.choice(UALPHA) for _ in range(r.range(1, 3)))
+    if style == "casey":
+        # words that differ only in case (and a few that differ in a language-sensitive letter)
+        nbase = r.range(1, 3)
+        for _ in range(nbase):
+            w = "".join(r.choice(["a", "b", "o", "z", "\u00f6", "e"]) for _ in range(r.range(1, 2)))
+            for v in (w, w.upper(), w.capitalize(), w + "z", w + "\u00f6"):
+                if v not in pool and r.chance(3, 4):
+                    pool.append(v)
+    npool = max(len(pool), r.range(2, 7))
+    guard = 0
+    while len(pool) < npool and guard < 100:
+        guard += 1
+        w = "".join(r.choice(UALPHA if style == "mixed" else UALPHA2) for _ in range(r.range(1, 3)))
         if w not in pool and w.strip() == w:
             pool.append(w)
-    co, lang = r.weighted([((0, "-"), 6), ((1, "-"), 1), ((2, "-"), 1), ((0, "en"), 1), ((0, "sv"), 1), ((0, "de"), 1)])
     case["pool"] = pool
-    case["coll"] = [co, lang]
+    profile = r.weighted([("same", 3), ("mixed-lang", 4), ("mixed-co", 3), ("free", 2)])
+    base = [r.choice([0, 0, 1, 2]), r.choice(LANGS)]
     for j, k in enumerate(case["keys"]):
         k["extra"] = ""
-        if not k["number"]:
-            k["extra"] = {1: "case-upper", 2: "case-lower"}.get(co, "")
         finalize_key(k, j)
-        if not k["number"] and lang != "-":
-            k["lang_attr"] = lang
+        if k["number"]:
+            continue
+        if profile == "same":
+            co, lang = base
+        elif profile == "mixed-lang":
+            co, lang = base[0], r.choice(LANGS)
+        elif profile == "mixed-co":
+            co, lang = r.choice([0, 1, 2]), base[1]
+        else:
+            co, lang = r.choice([0, 1, 2]), r.choice(LANGS)
+        k["coll"] = [co, lang]
+        k["co_attr"], k["co_raw"] = {0: (None, "~"), 1: ("upper-first", "upper-first"), 2: ("lower-first", "lower-first")}[co]
+        k["lang_attr"] = None if lang == "-" else lang
     for row in case["rows"]:
         for j, k in enumerate(case["keys"]):
             if not k["number"]:
                 row[j] = ("t", r.choice(pool))
+    # an earlier sort in the SAME transformation with the same lang and another case-order (result discarded):
+    # a collator cached per language must not keep the earlier UCOL_CASE_FIRST
+    text = [j for j, k in enumerate(case["keys"]) if not k["number"]]
+    if text and r.chance(1, 2):
+        j = r.choice(text)
+        co, lang = case["keys"][j]["coll"]
+        case["pre_sort"] = {"key": j, "co": r.choice([c for c in (0, 1, 2) if c != co]), "lang": lang}
     return case
 
 
-def coll_line(case):
-    co, lang = case["coll"]
-    return "coll %d %s %s" % (co, lang, " ".join(u16hex(w) for w in case["pool"]))
+def coll_lines(case):
+    """one oracle request per text key: that key's own (case-order, lang)"""
+    strs = " ".join(u16hex(w) for w in case["pool"])
+    return ["coll %d %s %s" % (k["coll"][0], k["coll"][1], strs) for k in case["keys"] if not k["number"]]
+
+
+def set_matrices(case, mats):
+    it = iter(mats)
+    case["matrix"] = ";".join("-" if k["number"] else next(it) for k in case["keys"])
 
 
 def u16hex(w):
@@ -314,9 +352,10 @@ def build(case):
     body = ('[<xsl:value-of select="@id"/>|<xsl:value-of select="position()"/>|<xsl:value-of select="last()"/>'
             + "".join(echo) + "]")
     if case.get("inner_sort"):
-        # an unrelated sort between two iterations of the outer one (same NodeSorter, same caches)
+        # an unrelated sort between two iterations of the outer one (same NodeSorter, same caches); the body must not
+        # be empty: ElemForEach::startElement does nothing at all when the instruction has no children besides xsl:sort
         body += ('<xsl:for-each select="../e"><xsl:sort select="@id" data-type="number" order="descending"/>'
-                 '<xsl:sort select="@k0"/></xsl:for-each>')
+                 '<xsl:sort select="@k0"/><xsl:value-of select="\'\'"/></xsl:for-each>')
     pred = "[@sel='1']" if case.get("subset") else ""
     sel = ("e" if case["nest"] else "/r/g/e") + pred
     pre = ""
@@ -330,11 +369,23 @@ def build(case):
         inner = '<xsl:apply-templates select="%s">%s</xsl:apply-templates>' % (sel, "".join(sorts))
         templ = '<xsl:template match="e">%s</xsl:template>' % body
     inner = pre + inner
+    ps = case.get("pre_sort")
+    if ps:
+        kk = keys[ps["key"]]
+        e = key_expr(ps["key"], kk).replace("p:probe(%d,@id,@k%d)" % (ps["key"], ps["key"]), "@k%d" % ps["key"])
+        a = ['select="%s"' % e]
+        if ps["lang"] != "-":
+            a.append('lang="%s"' % ps["lang"])
+        if ps["co"]:
+            a.append('case-order="%s"' % ("upper-first" if ps["co"] == 1 else "lower-first"))
+        presort = '<xsl:for-each select="/r/g/e[@sel=\'1\']"><xsl:sort %s/><xsl:value-of select="\'\'"/></xsl:for-each>' % " ".join(a)
+    else:
+        presort = ""
     if case["nest"]:
         inner = '<xsl:for-each select="/r/g">%s</xsl:for-each>' % inner
     xsl = ('<?xml version="1.0"?><xsl:stylesheet version="1.0" xmlns:xsl="http://www.w3.org/1999/XSL/Transform" '
            'xmlns:p="%s" exclude-result-prefixes="p"><xsl:output method="text"/>'
-           '<xsl:template match="/">%s</xsl:template>%s</xsl:stylesheet>' % (PROBE_NS, inner, templ))
+           '<xsl:template match="/">%s%s</xsl:template>%s</xsl:stylesheet>' % (PROBE_NS, presort, inner, templ))
     return request_line(case, xml, xsl), xml, xsl
 
 
@@ -414,6 +465,8 @@ def describe(case):
                                       "" if not k.get("odd") else ",ODD:" + k["odd"]) for k in case["keys"])
     rows = "; ".join(",".join(repr(v[1]) for v in row) for row in case["rows"])
     if "pool" in case:
-        rows += " coll=%r" % (case["coll"],)
+        rows += " coll=%r" % ([k.get("coll") for k in case["keys"]],)
+        if case.get("pre_sort"):
+            rows += " pre_sort=%r" % (case["pre_sort"],)
     return "%s%s%s%s%s keys[%s] rows[%s]" % (case["mode"], "+nest" if case["nest"] else "", "+subset" if case.get("subset") else "",
                                          "+selvar" if case.get("selvar") else "", "+inner" if case.get("inner_sort") else "", ks, rows)
